@@ -86,6 +86,11 @@ fn cases(thorough: bool) -> Vec<Case> {
         v.push(case("flop-card-in-range", flop, &["text:22,AA,77"], false, 0, 1176 * 18));
         v.push(case("flop-card-in-range", flop, &["text:A2s+", "text:22,AA"], false, 0, 1176 * 48 * 12));
     }
+    // many-way ties: the board plays for everybody
+    v.push(case("full-table", "AhKdQc", &["text:2s2h", "text:3s3h", "text:4s4h", "text:5s5h", "text:6s6h", "text:7s7h"], false, 0, 1176));
+    v.push(case("full-table", "AhKdQc", &["text:2s2h,2d2c", "text:3s3h", "text:4s4h", "text:5s5h", "text:6s6h,6d6c", "text:7s7h", "text:8s8h", "text:9s9h"], false, 0, 1176 * 4));
+    v.push(case("full-table", "7h7d7c", &["text:2s3s", "text:2h3h", "text:2d3d", "text:2c3c", "text:4s5s", "text:4h5h", "text:4d5d"], false, 0, 1176));
+    v.push(case("full-table", "AsKsQs", &["text:2h3h", "text:2d3d", "text:2c3c", "text:4h5h", "text:4d5d", "text:4c5c", "text:6h7h", "text:6d7d", "text:8h9h"], false, 0, 1176));
     // no players
     v.push(case("no-players", "Qs8d2h", &[], false, 0, 1176));
     // realistic inputs
